@@ -2,7 +2,7 @@
   GIV.Lemmas.CacheRefine — fault-free operation sequences on an undamaged cache behave like the
   abstract map  id ↦ data  (last Put wins).  Core Lean only.
 -/
-import GIV.Lemmas.CacheOps
+import GIV.Lemmas.CacheStored
 
 namespace GIV.Cache
 open GIV
